@@ -2339,6 +2339,10 @@ FID_UPDATE_RVS = 'src/pharmpy/model/external/nonmem/update.py:update_random_vari
 FID_PRINTER = CODE_RECORD + ':NMTranPrinter'
 FID_PIECEWISE = CODE_RECORD + ':_translate_condition'
 FID_UPDATE_STATEMENTS = CODE_RECORD + ':CodeRecord.update_statements'
+FID_UPDATE_LAG = 'src/pharmpy/model/external/nonmem/update.py:update_lag_time'
+FID_UPDATE_BIO = 'src/pharmpy/model/external/nonmem/update.py:update_bio'
+FID_UPDATE_INFUSION = 'src/pharmpy/model/external/nonmem/update.py:update_infusion'
+FID_PK_CONVERSION = 'src/pharmpy/model/external/nonmem/update.py:pk_param_conversion'
 
 
 def _transformations():
@@ -2384,6 +2388,236 @@ def gen_roundtrip_cases(tier):
                       'set_transit_compartments_2')]
     cases += [c for c in back if c not in cases]
     return cases
+
+
+# start models of the round trip.  'pheno' is the start of every case recorded before the other starts
+# were added: its cases keep the form without a 'start' key.
+_RT_STARTS = {
+    'pheno': 'pheno example model (bolus, ADVAN1 TRANS2, no RATE/CMT column)',
+    'moxo': 'moxo example model (oral ADVAN2 TRANS1 with lag time ALAG1, IOV, SAME blocks)',
+    'pheno RATE0': 'pheno with a RATE data column that is 0 on every record (bolus doses)',
+}
+_EXISTING_FEATURE = ('add_lag_time', 'add_bioavailability')
+
+
+def gen_roundtrip_jobs(tier):
+    """-> list of (start, sequence); the (pheno, sequence) jobs of gen_roundtrip_cases come first, in their order"""
+    names = list(_transformations())
+    jobs = [('pheno', seq) for seq in gen_roundtrip_cases(tier)]
+    singles = [[]] + [[a] for a in names]
+    for start in list(_RT_STARTS)[1:]:
+        if tier == 'thorough':
+            jobs += [(start, seq) for seq in singles + [[a, b] for a in names for b in names]]
+        else:
+            jobs += [(start, seq) for seq in singles]
+    # a transformation applied to a model that already has what it adds: twice in a row
+    for start in _RT_STARTS:
+        for a in (names if start == 'pheno' or tier == 'thorough' else _EXISTING_FEATURE):
+            if (start, [a, a]) not in jobs:
+                jobs.append((start, [a, a]))
+    if tier != 'thorough':
+        # ... and with the other feature added in between
+        for a in _EXISTING_FEATURE:
+            for b in _EXISTING_FEATURE:
+                if a != b and ('pheno', [a, b, a]) not in jobs:
+                    jobs.append(('pheno', [a, b, a]))
+    return jobs
+
+
+def _rt_start(start):
+    """the start model of a round-trip case (built with the public reading functions only)"""
+    import shutil
+    import tempfile
+
+    from pharmpy.modeling import load_example_model, read_model, read_model_from_string
+
+    if start == 'pheno':
+        return load_example_model('pheno')
+    if start == 'moxo':
+        model = load_example_model('moxo')
+        if model.dataset is None:
+            # the $DATA record of the packaged control stream names a file that is packaged under another
+            # name: read the same control stream next to the data set under the name it asks for
+            src = os.path.dirname(str(model.datainfo.path))
+            csv = os.path.join(src, 'moxo.csv')
+            if os.path.exists(csv) and os.path.exists(os.path.join(src, 'moxo.mod')):
+                with tempfile.TemporaryDirectory() as d:
+                    shutil.copy(os.path.join(src, 'moxo.mod'), os.path.join(d, 'moxo.mod'))
+                    shutil.copy(csv, os.path.join(d, os.path.basename(str(model.datainfo.path))))
+                    model = read_model(os.path.join(d, 'moxo.mod'))
+                    model.dataset  # noqa: B018
+        return model
+    if start == 'pheno RATE0':
+        base = load_example_model('pheno')
+        lines = base.code.split('\n')
+        k = [i for i, ln in enumerate(lines) if ln.startswith('$INPUT')]
+        assert len(k) == 1
+        lines[k[0]] = lines[k[0]].rstrip() + ' RATE'
+        df = base.dataset.copy()
+        df['RATE'] = 0
+        model = read_model_from_string('\n'.join(lines))
+        return model.replace(dataset=df).update_source()
+    raise ValueError(start)
+
+
+# reserved PREDPP parameters and data items that the in-memory compartments imply -------------------
+
+# fixed compartment numbers of the library routines (NONMEM Users Guide VI): role -> number
+_LIB_NUMBERS = {'ADVAN1': {'central': 1}, 'ADVAN2': {'depot': 1, 'central': 2}, 'ADVAN3': {'central': 1},
+                'ADVAN4': {'depot': 1, 'central': 2}, 'ADVAN10': {'central': 1}, 'ADVAN11': {'central': 1},
+                'ADVAN12': {'depot': 1, 'central': 2}}
+
+
+def _records(code):
+    """control stream text -> list of (record name upper case, text without the name and without comments)"""
+    out = []
+    for ln in code.split('\n'):
+        m = re.match(r'^\s*\$([A-Za-z]+)(.*)$', ln)
+        if m:
+            out.append([m.group(1).upper(), m.group(2).split(';')[0]])
+        elif out:
+            out[-1][1] += '\n' + ln.split(';')[0]
+    return out
+
+
+def _assigned_names(text):
+    """names assigned by abbreviated code (left hand sides, also of logical IF statements)"""
+    names = []
+    for ln in text.split('\n'):
+        m = re.match(r'^\s*(?:IF\s*\(.*\)\s*)?([A-Za-z_]\w*)\s*=(?!=)', ln, flags=re.I)
+        if m and m.group(1).upper() not in names:
+            names.append(m.group(1).upper())
+    return names
+
+
+def _code_numbering(model, code):
+    """in-memory compartment name -> number under NM-TRAN's reading of the generated code ($MODEL order, or the
+    fixed numbers of the library ADVAN for the central and the depot compartment); the others are left out"""
+    recs = _records(code)
+    sub = ' '.join(t for r, t in recs if r.startswith('SUB'))
+    m = re.search(r'ADVAN(\d+)', sub, flags=re.I)
+    if not m:
+        return {}
+    advan = 'ADVAN' + m.group(1)
+    odes = model.statements.ode_system
+    mod = ' '.join(t for r, t in recs if r.startswith('MOD'))
+    if mod.strip():
+        names = [c.split()[0].upper() for c in re.findall(r'COMP\w*\s*=\s*\(([^)]*)\)', mod, flags=re.I)]
+        return {nm: names.index(nm.upper()) + 1 for nm in odes.compartment_names if nm.upper() in names}
+    lib = _LIB_NUMBERS.get(advan)
+    if lib is None:
+        return {}
+    num = {odes.central_compartment.name: lib['central']}
+    if 'depot' in lib:
+        first = [nm for nm in odes.compartment_names
+                 if odes.get_flow(odes.find_compartment(nm), odes.central_compartment) != 0
+                 and odes.get_flow(odes.central_compartment, odes.find_compartment(nm)) == 0]
+        if len(first) == 1:
+            num[first[0]] = lib['depot']
+    return num
+
+
+def _dose_kind(d):
+    if type(d).__name__ == 'Bolus':
+        return 'bolus'
+    if getattr(d, 'duration', None) is not None:
+        return 'duration'
+    if str(d.rate) == 'RATE':
+        return 'data rate'
+    return 'rate'
+
+
+def _reserved_diffs(model, code):
+    """-> list of (what, detail): reserved parameters ALAGn, Fn, Dn, Rn, Sn assigned in $PK of the generated code
+    vs. the ones the compartments of the in-memory model imply"""
+    import sympy
+
+    odes = model.statements.ode_system
+    if odes is None:
+        return []
+    num = _code_numbering(model, code)
+    pk = '\n'.join(t for r, t in _records(code) if r == 'PK')
+    assigned = _assigned_names(pk)
+    implied = {'ALAG': {}, 'F': {}, 'D': {}, 'R': {}}
+    unnumbered = False
+    dosed = set()
+    for nm in odes.compartment_names:
+        c = odes.find_compartment(nm)
+        feats = []
+        # PREDPP applies ALAGn and Fn to the doses into compartment n: only compartments with doses count
+        if c.doses and nm in num:
+            dosed.add(num[nm])
+        if c.doses and c.lag_time != 0:
+            feats.append(('ALAG', f'lag time {c.lag_time}'))
+        if c.doses and c.bioavailability != 1:
+            feats.append(('F', f'bioavailability {c.bioavailability}'))
+        for d in c.doses:
+            k = _dose_kind(d)
+            if k == 'duration':
+                feats.append(('D', f'dose {d}'))
+            elif k == 'rate':
+                feats.append(('R', f'dose {d}'))
+        for pre, why in feats:
+            if nm in num:
+                implied[pre][num[nm]] = f'compartment {nm} (number {num[nm]} of the generated code) has {why}'
+            else:
+                unnumbered = True
+    out = []
+    for what, pre in (('res_lag', 'ALAG'), ('res_bio', 'F'), ('res_dose', 'D'), ('res_dose', 'R')):
+        have = sorted(int(a[len(pre):]) for a in assigned if re.fullmatch(pre + r'\d+', a))
+        for n, why in sorted(implied[pre].items()):
+            if n not in have:
+                out.append((what, f'{why}, $PK assigns {[pre + str(k) for k in have] or "no " + pre + "n"}'))
+        if not unnumbered:
+            for n in have:
+                if n not in implied[pre] and n in dosed:
+                    out.append((what, f'$PK assigns {pre}{n}, the doses into compartment {n} of the generated code have '
+                                f'no such property in the model (implied: {[pre + str(k) for k in sorted(implied[pre])]})'))
+    # scale of the observed (central) compartment
+    f = model.statements.after_odes.find_assignment('F')
+    central = odes.central_compartment
+    if f is not None and central.name in num:
+        e = sympy.sympify(f.expression)
+        numer, den = e.as_numer_denom()
+        if numer == sympy.sympify(central.amount) and (den == 1 or den.is_Symbol):
+            sname = f'S{num[central.name]}'
+            if den != 1 and sname not in assigned:
+                out.append(('res_scale', f'F = {e} in the model, central compartment {central.name} has number '
+                            f'{num[central.name]} in the generated code, $PK assigns '
+                            f'{[a for a in assigned if re.fullmatch(r"S(C|[0-9]+)", a)]}'))
+            if den == 1 and sname in assigned:
+                out.append(('res_scale', f'F = {e} (unscaled) in the model, $PK assigns {sname}'))
+    return out
+
+
+def _rate_diffs(model, df, di=None):
+    """-> list of (what, detail): the RATE data item of the records of df under PREDPP rules (no RATE item or 0:
+    bolus, -2: duration Dn, -1: rate Rn, >0: rate given in the data) vs. the doses of the in-memory model"""
+    odes = model.statements.ode_system
+    if odes is None or df is None or 'AMT' not in df.columns:
+        return []
+    kinds = sorted({_dose_kind(d) for nm in odes.compartment_names for d in odes.find_compartment(nm).doses})
+    if len(kinds) != 1:
+        return []
+    kind = kinds[0]
+    dose = df['AMT'] != 0
+    if 'EVID' in df.columns:
+        dose = dose & df['EVID'].isin([1, 4])
+    has_rate = 'RATE' in df.columns and not (di is not None and 'RATE' in di.names and di['RATE'].drop)
+    if not has_rate:
+        if kind != 'bolus':
+            return [('rate', f'the doses of the model are of kind "{kind}", the data set has no RATE item (bolus doses)')]
+        return []
+    vals = sorted(set(float(v) for v in df.loc[dose, 'RATE']))
+    want = {'bolus': lambda v: v == 0, 'duration': lambda v: v == -2, 'rate': lambda v: v == -1,
+            'data rate': lambda v: v > 0}[kind]
+    out = []
+    if not all(want(v) for v in vals):
+        out.append(('rate', f'the doses of the model are of kind "{kind}", the dose records have RATE in {vals}'))
+    obs = sorted(set(float(v) for v in df.loc[df['AMT'] == 0, 'RATE']))
+    if any(v != 0 for v in obs):
+        out.append(('rate', f'records without dose have RATE in {obs}'))
+    return out
 
 
 def _ir_eval_model(model, point, amount_values):
@@ -2559,24 +2793,42 @@ _RT_CLAUSE = {
     'bio': (FID_UPDATE_ODE, 'the generated Fn gives every compartment the bioavailability of the model'),
     'dvs': (FID_UPDATE_SOURCE, 'the dependent variables (Y) of the generated code have numerically the '
             'values of the model for equal parameters, etas, epsilons, data and amounts'),
+    'res_lag': (FID_UPDATE_LAG, 'the generated $PK assigns the reserved parameter ALAGn exactly for the dosed '
+                'compartments n (numbering of the generated code) that have a lag time in the model'),
+    'res_bio': (FID_UPDATE_BIO, 'the generated $PK assigns the reserved parameter Fn exactly for the dosed compartments '
+                'n (numbering of the generated code) whose bioavailability is not 1 in the model'),
+    'res_dose': (FID_UPDATE_INFUSION, 'the generated $PK assigns the reserved parameters Dn / Rn exactly for the '
+                 'dosed compartments n (numbering of the generated code) whose dose is an infusion with modelled '
+                 'duration / rate in the model'),
+    'res_scale': (FID_PK_CONVERSION, 'the generated $PK assigns the scale parameter Sn of the central compartment '
+                  '(numbering of the generated code) exactly if F is the scaled central amount in the model'),
+    'rate': (FID_UPDATE_INFUSION, 'the RATE data item of the written data set gives every dose record the kind of '
+             'dose the model has (none or 0: bolus, -2: modelled duration, -1: modelled rate, >0: rate in the '
+             'data) and is 0 on the other records'),
 }
 
 
-def _check_roundtrip_case(seq):
-    """-> (nontrivial, [(fid, clause, detail)])"""
+def _check_roundtrip_case(job):
+    """job = (start, sequence), or the sequence alone for the start pheno -> (nontrivial, [(fid, clause, detail)])"""
     import tempfile
 
-    from pharmpy.modeling import load_example_model, read_model, write_model
+    from pharmpy.modeling import read_model, write_model
 
     _speedup()
     tr = _transformations()
-    model = load_example_model('pheno')
+    start, seq = job if isinstance(job, tuple) else ('pheno', job)
+    try:
+        model = _rt_start(start)
+    except Exception as exc:
+        return (True, [(FID_UPDATE_SOURCE, 'checker: the start model of the round trip can be built',
+                        f'{start}: {type(exc).__name__}: {str(exc)[:150]}')])
     try:
         for name in seq:
             model = tr[name](model)
     except Exception:
         return (False, [])  # the sequence is not in the domain: a transformation did not succeed
-    tag = ' ; '.join(seq) or '(pheno unchanged)'
+    tag = ('' if start == 'pheno' else f'{start} ; ') + (' ; '.join(seq) or f'({start} unchanged)')
+    extra = []
     try:
         with tempfile.TemporaryDirectory() as d:
             path = os.path.join(d, 'run1.mod')
@@ -2584,6 +2836,9 @@ def _check_roundtrip_case(seq):
             back = read_model(path)
             back.dataset  # noqa: B018
             diffs = _compare_models(model, back)
+            with open(path) as fh:
+                code = fh.read()
+            extra = _reserved_diffs(model, code) + _rate_diffs(model, back.dataset)
     except Exception as exc:
         import traceback
 
@@ -2593,7 +2848,7 @@ def _check_roundtrip_case(seq):
                         f'{tag}: {type(exc).__name__}: {str(exc)[:150]} at {os.path.basename(tb.filename)}:{tb.lineno}')])
     fails = []
     seen = set()
-    for what, detail in diffs:
+    for what, detail in diffs + extra:
         if what not in seen:
             seen.add(what)
             fid, clause = _RT_CLAUSE[what]
@@ -2888,35 +3143,40 @@ def _check_print_batch(cases):
 def bounded_codegen_roundtrip(tier='quick'):
     import multiprocessing as mp
 
-    rt_cases = gen_roundtrip_cases(tier)
+    rt_jobs = gen_roundtrip_jobs(tier)
+    base_cases = gen_roundtrip_cases(tier)
+    rt_cases = [seq for _, seq in rt_jobs]
     pr_cases, nexpr = gen_print_cases(tier)
     batch = 40
     pr_jobs = [pr_cases[i : i + batch] for i in range(0, len(pr_cases), batch)]
     ctx = mp.get_context('fork')
     with ctx.Pool(NPROC, initializer=_pool_init) as pool:
-        rt_async = pool.map_async(_check_roundtrip_case, rt_cases, chunksize=1)
+        rt_async = pool.map_async(_check_roundtrip_case, rt_jobs, chunksize=1)
         pr_async = pool.map_async(_check_print_batch, pr_jobs, chunksize=1)
         rt_res = rt_async.get()
         pr_res = pr_async.get()
     fails = {}
     also = _Also()
     nontrivial = 0
-    for seq, (nt, fl) in zip(rt_cases, rt_res):
+    for (start, seq), (nt, fl) in zip(rt_jobs, rt_res):
         nontrivial += bool(nt)
         for fid, clause, detail in fl:
             key = (fid, clause)
-            size = (len(seq), len(' '.join(seq)))
-            also.add(key, {'kind': 'roundtrip', 'transformations': seq, 'clause': clause})
+            # the cases of the start pheno (recorded without 'start') stay the smallest ones
+            size = (list(_RT_STARTS).index(start), len(seq), len(' '.join(seq)))
+            case = {'kind': 'roundtrip', 'transformations': seq, 'clause': clause}
+            if start != 'pheno':
+                case = {'kind': 'roundtrip', 'start': start, 'transformations': seq, 'clause': clause}
+            also.add(key, case)
             if key not in fails or size < fails[key]['_size']:
-                fails[key] = {'fid': fid, 'clause': clause, 'detail': detail,
-                              'case': {'kind': 'roundtrip', 'transformations': seq, 'clause': clause},
+                fails[key] = {'fid': fid, 'clause': clause, 'detail': detail, 'case': case,
                               'replay_fn': 'bounded_codegen_roundtrip_replay', '_size': size}
     for job, res in zip(pr_jobs, pr_res):
         for i, nt, fl in res:
             nontrivial += bool(nt)
             for fid, clause, detail in fl:
                 key = (fid, clause)
-                size = (1, len(str(job[i])))
+                size = (0, 1, len(str(job[i])))
                 also.add(key, {'kind': 'print', 'case': job[i], 'clause': clause})
                 if key not in fails or size < fails[key]['_size']:
                     fails[key] = {'fid': fid, 'clause': clause, 'detail': detail,
@@ -2934,8 +3194,13 @@ def bounded_codegen_roundtrip(tier='quick'):
             f'transformations (absorption, elimination, peripheral/transit compartments, lag time, '
             f'bioavailability, ODE solver){"" if tier == "thorough" else " plus the 24 ordered pairs elimination x absorption"} '
             f'plus 8 sequences non-linear elimination ; structure change ; first-order elimination '
-            f'[{len(rt_cases)}], written to disk and read back, compared '
-            f'numerically at 3 points over all compartment numberings; printer: all {nexpr} distinct sympy '
+            f'[{sum(1 for st, _ in rt_jobs if st == "pheno" and _ in base_cases)}]; the same <={2 if tier == "thorough" else 1} '
+            f'transformations from 2 more start models (moxo example model: oral ADVAN2 with ALAG1, IOV; pheno with '
+            f'a RATE data column that is 0 on all records); every transformation twice in a row '
+            f'{"from every start" if tier == "thorough" else "from pheno, add_lag_time / add_bioavailability twice in a row from every start and alternating (a ; b ; a) from pheno"} '
+            f'[{len(rt_jobs)} in all]; written to disk and read back, compared '
+            f'numerically at 3 points over all compartment numberings, reserved parameters ALAGn/Fn/Dn/Rn/Sn assigned '
+            f'in the written $PK and RATE item of the written data compared with what the compartments of the model imply; printer: all {nexpr} distinct sympy '
             f'expressions from trees of depth <=2 over + - * / ** unary- exp log sqrt with operands WGT, AGE, '
             f'2, and {len(pr_cases) - nexpr} Piecewise statements (5 shapes) whose conditions are atoms, And/Or '
             f'of 2-3 atoms, Not(And/Or), And(Or(..),..), Or(And(..),..) over 6 relational atoms; printed text '
@@ -2954,7 +3219,7 @@ def bounded_codegen_roundtrip_replay(rp):
     if c['kind'] == 'roundtrip':
         if _IR_REL is None:
             _init_ir_tables()
-        _, fl = _check_roundtrip_case(list(c['transformations']))
+        _, fl = _check_roundtrip_case((c.get('start', 'pheno'), list(c['transformations'])))
     else:
         case = _tuplify(c['case'])
         if case[0] == 'pw':
